@@ -62,7 +62,8 @@ Record alias_def := {
 
 Inductive state_kind :=
   SStatic | SThreadLocal | SLazy | SOnce | SAtomic | STime | SEnv | SProcessId | SPointerFmt
-| SRandom | SFs | SAddress.
+| SRandom | SFs | SAddress
+| SInteriorMut.   (* RefCell / Cell / Mutex / RwLock / Once* / Lazy* inside a static / thread_local! / lazy_static! *)
 
 Record state_site := {
   s_file : string;
